@@ -5,7 +5,8 @@ package checker
 
 //@ iface Service.Check(self, ctx, credentials, account, operation)
 //@ flag noalloc
-//@ modifies checkedset
-//@ ensures [recorded] result ==> credentials != nil && (credentials.Client + "|" + account + "|" + operation) in checkedset
-//@ ensures [monotone] forall k string :: old(k in checkedset) ==> k in checkedset
-//@ ensures [onlythis] !result ==> checkedset == old(checkedset)
+//@ modifies checkedset, deniedset
+// checkedset/deniedset are auxiliary (history) variables: the positive and negative answers given during this request.
+//@ aux-ensures [recorded] result ==> credentials != nil && (credentials.Client + "|" + account + "|" + operation) in checkedset
+//@ aux-ensures [denied] !result && credentials != nil ==> (credentials.Client + "|" + account + "|" + operation) in deniedset
+//@ aux-ensures [onlythis] !result ==> checkedset == old(checkedset)
